@@ -36,7 +36,8 @@ func runDrain(seed uint64, scale int, out string, _ string) *summary {
 	//   V2  the same without parking the writer (its transition wins; the maintainer must reschedule);
 	//   V3  the writer is parked after loading "idle" while another writer runs a complete cycle.
 	scripted := 60 * scale
-	for sc := 0; sc < scripted; sc++ {
+	stranded := 0
+	for sc := 0; sc < scripted && stranded < 6; sc++ {
 		variant := sc % 3
 		var armed2, armed8 atomic.Int32
 		var passed6 atomic.Int64
@@ -150,6 +151,7 @@ func runDrain(seed uint64, scale int, out string, _ string) *summary {
 			sum.fail("C14", "stranded", "maintenance is stranded: writes were recorded but the cache reports outstanding maintenance and nothing will run it",
 				fmt.Sprintf("%s drainStatus=%d writeBuffer=%d", desc, st, wb))
 			t.line("W %d %d stranded %d %d", sc, variant, st, wb)
+			stranded++
 			continue
 		}
 		for i := 0; i < 2000 && asyncEv.Load() != atomicEv.Load(); i++ {
@@ -165,7 +167,7 @@ func runDrain(seed uint64, scale int, out string, _ string) *summary {
 		sum.Dist[fmt.Sprintf("scripted_window_V%d", variant+1)]++
 		seen[fmt.Sprintf("scripted/%d", variant)] = true
 	}
-	for rd := 0; rd < rounds; rd++ {
+	for rd := 0; rd < rounds && stranded < 12; rd++ {
 		maximum := 2 + r.intn(20)
 		writers := 1 + r.intn(6)
 		readers := r.intn(3)
@@ -254,6 +256,7 @@ func runDrain(seed uint64, scale int, out string, _ string) *summary {
 				fmt.Sprintf("%s drainStatus=%d writeBuffer=%d", desc, st, wb))
 			t.line("R %d %d %d %d %d stranded %d %d", rd, maximum, writers, per, mode, st, wb)
 			otter.VerifHook = nil
+			stranded++ // every stranded round costs its whole time limit: a handful of witnesses is enough
 			continue
 		}
 		// notifications are delivered by executor goroutines: give them time, still without cache calls
